@@ -539,10 +539,12 @@ impl PeerHandler {
                 self.new_piece_request(true, &req_data).await?
             }
             UnchokeCmd::SendRequest(req_data) => self.new_piece_request(false, &req_data).await?,
+            // Nothing to download from peer, so manager doesn't expect any piece from this task
             UnchokeCmd::SendNotInterested => {
+                self.piece_rx = None;
                 self.connection.send_msg(&NotInterested::new()).await?
             }
-            UnchokeCmd::Ignore => (),
+            UnchokeCmd::Ignore => self.piece_rx = None,
         }
 
         Ok(())
